@@ -321,7 +321,17 @@ func (b *batch) render() *stageFailure {
 	// (the file sorts last, so the first program file is the first file the compiler visits; GVDur/GVBuf give other
 	// files a callee whose parameter type comes from a package they import for nothing else)
 	gl.Imports = []string{`"time"`, `"strings"`}
-	gl.Decls = []*Decl{{Kind: "raw", Raw: "var GV0, GV1, GV2 int\n\nfunc GVDur(d time.Duration) int { return int(d / time.Millisecond) }\n\nfunc GVBuf(b *strings.Builder) int { return b.Len() }\n\n$GEN{GVTouch(a int)}{int}{\n\t$YIELD{a}\n\t$RET\n}"}}
+	// package-level CONSTANTS named like the parameters and locals of the generated programs (a, b, x1.., w1..): every
+	// such local shadows a constant, so a compiler that resolves an identifier by name instead of by object is caught
+	var consts strings.Builder
+	consts.WriteString("const (\n\ta, b, c = 9000, 9001, 9002\n")
+	for _, pre := range []string{"x", "w", "n", "v", "q", "r", "p"} {
+		for i := 1; i <= 30; i++ {
+			fmt.Fprintf(&consts, "\t%s%d = %d\n", pre, i, 9100+i)
+		}
+	}
+	consts.WriteString(")\n\n")
+	gl.Decls = []*Decl{{Kind: "raw", Raw: consts.String() + "var GV0, GV1, GV2 int\n\nfunc GVDur(d time.Duration) int { return int(d / time.Millisecond) }\n\nfunc GVBuf(b *strings.Builder) int { return b.Len() }\n\n$GEN{GVTouch(a int)}{int}{\n\t$YIELD{a}\n\t$RET\n}"}}
 	for _, m := range []struct{ mode, dir string }{{"S", "s"}, {"R", "r"}} {
 		if f := write(m.mode, m.dir, "zgv.go", styleAt(2), []*Program{gl}); f != nil {
 			return f
